@@ -84,6 +84,13 @@ func (g *Gen) nlvShape(shape string) vocab.NaturalLanguageValues {
 	case "nlv-repeated":
 		return vocab.NaturalLanguageValues{{Ref: vocab.NilLangRef, Value: vocab.Content("first untagged")}, {Ref: vocab.NilLangRef, Value: vocab.Content("second untagged")},
 			{Ref: "en", Value: g.Text()}, {Ref: "en", Value: vocab.Content("another english text")}}
+	case "nlv-blank-only":
+		// every entry is there without a text: the property says nothing
+		return vocab.NaturalLanguageValues{{Ref: vocab.NilLangRef, Value: vocab.Content{}}, {Ref: "en"}}
+	case "nlv-blank":
+		// a translation that was withdrawn: its entry is still there, without a text (empty in one place, nil in the other),
+		// in front of and between entries that have one
+		return vocab.NaturalLanguageValues{{Ref: "fr", Value: vocab.Content{}}, {Ref: "en", Value: g.Text()}, {Ref: "ro"}, {Ref: "de", Value: g.Text()}}
 	case "nlv-mixed":
 		// an untagged text next to tagged ones (a document that gives both the plain term and the Map term)
 		return vocab.NaturalLanguageValues{{Ref: vocab.NilLangRef, Value: g.Text()}, {Ref: "en", Value: g.Text()}, {Ref: "fr", Value: g.Text()}}
@@ -110,6 +117,10 @@ func (g *Gen) nlvShape(shape string) vocab.NaturalLanguageValues {
 }
 
 func (g *Gen) NLV() vocab.NaturalLanguageValues {
+	if g.Exact && g.R.Intn(4) == 0 {
+		// the odd but legal lists: an untagged entry next to tagged ones, repeated tags, entries without a text
+		return g.NLVShape([]string{"nlv-mixed", "nlv-repeated", "nlv-blank"}[g.R.Intn(3)])
+	}
 	return g.NLVShape([]string{"nlv1u", "nlv1u", "nlv1t", "nlv2", "nlv3"}[g.R.Intn(5)])
 }
 
@@ -272,9 +283,9 @@ func FieldShapes(t reflect.Type, exact bool) []string {
 		if exact {
 			// gob stores the list entry by entry, so several values under one tag (two untagged strings, two "en") are kept;
 			// a JSON language map cannot hold them, hence not in the JSON domain
-			return []string{"nlv1u", "nlv1t", "nlv2", "nlv3", "nlv-empty", "nlv9", "nlv-long-text", "nlv-mixed", "nlv-repeated"}
+			return []string{"nlv1u", "nlv1t", "nlv2", "nlv3", "nlv-empty", "nlv9", "nlv-long-text", "nlv-mixed", "nlv-repeated", "nlv-blank"}
 		}
-		return []string{"nlv1u", "nlv1t", "nlv2", "nlv3", "nlv-empty", "nlv9", "nlv-long-text", "nlv-mixed"}
+		return []string{"nlv1u", "nlv1t", "nlv2", "nlv3", "nlv-empty", "nlv9", "nlv-long-text", "nlv-mixed", "nlv-blank", "nlv-blank-only"}
 	case t == TimeT:
 		if exact {
 			return []string{"time-s", "time-ns", "time-z"}
@@ -621,7 +632,7 @@ func BareCases() []BareCase {
 				shapes = shapes[:1] // items and lists: one shape; the scalar kinds: every shape (sign, size, zero-adjacent values)
 			}
 			for _, sh := range shapes {
-				if strings.HasSuffix(sh, "-empty") {
+				if strings.HasSuffix(sh, "-empty") || sh == "nlv-blank-only" {
 					continue // set-but-empty is "unset" in the normal form: such an object has nothing to say at all
 				}
 				out = append(out, BareCase{k, f, true, sh})
